@@ -284,3 +284,74 @@ func VerifJSObjectKey(n int) {
 	vAssert(string(out[4:j]) == string(k), "same string key")
 	vReach("end")
 }
+
+// structural serialisation of an expression for the adjacency harness: operators, variables, literal kinds
+func jShape(e js.IExpr) string {
+	switch x := e.(type) {
+	case *js.GroupExpr:
+		return jShape(x.X)
+	case *js.Var:
+		return string(x.Name())
+	case *js.LiteralExpr:
+		switch x.TokenType {
+		case js.RegExpToken:
+			return "re:" + string(x.Data)
+		case js.StringToken:
+			return "str:" + string(x.Data[1:len(x.Data)-1])
+		case js.DecimalToken, js.IntegerToken:
+			if refIsNumber(x.Data, true) {
+				r := refParse(x.Data)
+				return "num:" + string(r.ds) + "e" + string(rune('0'+r.e+5))
+			}
+		}
+		return "lit:" + string(x.Data)
+	case *js.UnaryExpr:
+		if x.Op == js.PostIncrToken || x.Op == js.PostDecrToken {
+			return "(" + jShape(x.X) + " post" + x.Op.String() + ")"
+		}
+		return "(" + x.Op.String() + " " + jShape(x.X) + ")"
+	case *js.BinaryExpr:
+		return "(" + jShape(x.X) + " " + x.Op.String() + " " + jShape(x.Y) + ")"
+	}
+	return "?"
+}
+
+func jShapeOf(src []byte) (string, bool) {
+	ast, err := js.Parse(parse.NewInputBytes(src), js.Options{})
+	if err != nil || len(ast.List) != 1 {
+		return "", false
+	}
+	st, ok := ast.List[0].(*js.ExprStmt)
+	if !ok {
+		return "", false
+	}
+	return jShape(st.Value), true
+}
+
+var jAdjOperands = []string{"a", "/re/", "/re/g", "+b", "-b", "++b", "--b", "!b", "\"s\"", "1", ".5", "b++", "b--", "~b", "typeof b", "1.", "5e3"}
+var jAdjOps = []string{"+", "-", "*", "/", "%", "<", ">", "<<", ">>", ">>>", "&", "|", "==", "in", "instanceof", "**", ">=", "<="}
+
+// VerifJSAdjacency (C09/C01): x = L OP R for 17 operand forms (regular expressions, signed / incremented / negated
+// operands, numbers with a leading or trailing dot) x 18 operators, written with single spaces: the output parses to the
+// same expression tree (no two tokens fuse into another token: ++ -- // <!-- --> ** and friends).
+func VerifJSAdjacency(n int) {
+	l := jAdjOperands[vChoice("l", len(jAdjOperands))]
+	r := jAdjOperands[vChoice("r", len(jAdjOperands))]
+	op := jAdjOps[vChoice("op", len(jAdjOps))]
+	vAssume(!(l == "\"s\"" && r == "\"s\"" && op == "+")) // two string literals are merged: a legitimate change of the tree
+	src := []byte("x=" + l + " " + op + " " + r + ";")
+	want, ok := jShapeOf(src)
+	vAssume(ok)
+	w := &vWriter{}
+	err := (&Minifier{}).Minify(nil, w, &vReader{b: append([]byte(nil), src...)}, nil)
+	vReach("after-call")
+	vOutput("out", w.buf)
+	vAssert(err == nil, "accepted")
+	// ECMAScript recognises // and /* as comment openers in every lexical context, also right after a regular
+	// expression literal (the dependency's lexer does not, so its parse cannot be the judge of this)
+	vAssert(!jHasIdent(w.buf, "//") && !jHasIdent(w.buf, "/*"), "no comment opener is formed: "+string(src)+" => "+string(w.buf))
+	got, ok2 := jShapeOf(append([]byte(nil), w.buf...))
+	vAssert(ok2, "output parses to one expression statement")
+	vAssert(got == want, "same expression tree: "+string(src)+" => "+string(w.buf)+" : "+want+" vs "+got)
+	vReach("end")
+}
